@@ -21,6 +21,7 @@ import (
 	"bytes"
 	"context"
 	"encoding/base64"
+	"encoding/binary"
 	"encoding/json"
 	"errors"
 	"fmt"
@@ -30,6 +31,7 @@ import (
 	"net/http/httptest"
 	"os"
 	"os/exec"
+	"os/signal"
 	"path"
 	"path/filepath"
 	"sort"
@@ -134,57 +136,119 @@ func c16Content(r *Rng, size int) []byte {
 }
 
 // c16Modules returns the three module versions, identical in parent and child.
+var c16Defs = []struct {
+	path, ver string
+	files     []string
+	big       string
+}{
+	{"example.com/a@v0", "v0.0.1", []string{"a.cue", "b.cue"}, "a.cue"},
+	{"example.com/b/sub@v1", "v1.2.0", []string{"x.cue", "big.cue", "dir1/y.cue", "dir1/dir2/z.cue", "other/w.cue"}, "big.cue"},
+	{"example.com/a@v0", "v0.1.0-rc.1", []string{"a.cue", "c.cue", "sub/d.cue"}, "sub/d.cue"},
+}
+
 func c16Modules(seed uint64) []*c16Mod {
 	r := NewRng(seed ^ 0xC16C16C16)
-	defs := []struct {
-		path, ver string
-		files     []string
-		big       string
-	}{
-		{"example.com/a@v0", "v0.0.1", []string{"a.cue", "b.cue"}, "a.cue"},
-		{"example.com/b/sub@v1", "v1.2.0", []string{"x.cue", "big.cue", "dir1/y.cue", "dir1/dir2/z.cue", "other/w.cue"}, "big.cue"},
-		{"example.com/a@v0", "v0.1.0-rc.1", []string{"a.cue", "c.cue", "sub/d.cue"}, "sub/d.cue"},
-	}
 	var out []*c16Mod
-	for i, d := range defs {
+	for i, d := range c16Defs {
 		mr := r.Sub()
-		mv := module.MustNewVersion(d.path, d.ver)
-		m := &c16Mod{Idx: i, MV: mv, Files: map[string][]byte{}}
+		files := map[string][]byte{}
 		// The trailing comment makes the module-file blob (and so its digest) distinct
 		// for two versions of the same module path.
-		m.ModCue = []byte(fmt.Sprintf("module: %q\nlanguage: version: \"v0.8.0\"\n// %s\n", d.path, d.ver))
-		m.Files["cue.mod/module.cue"] = m.ModCue
+		files["cue.mod/module.cue"] = []byte(fmt.Sprintf("module: %q\nlanguage: version: \"v0.8.0\"\n// %s\n", d.path, d.ver))
 		for _, name := range d.files {
 			size := 1 + mr.Intn(3000)
 			if name == d.big {
 				size = 200_000 + mr.Intn(100_000)
 			}
-			m.Files[name] = c16Content(mr, size)
+			files[name] = c16Content(mr, size)
 		}
-		var files []c16File
-		for name, data := range m.Files {
-			m.Names = append(m.Names, name)
-			files = append(files, c16File{name, data})
-		}
-		sort.Strings(m.Names)
+		out = append(out, c16FinishMod(i, files, nil))
+	}
+	return out
+}
+
+// c16FinishMod completes module number idx of c16Defs from its files; the zip is built
+// with modzip.Create unless it is given.
+func c16FinishMod(idx int, fileMap map[string][]byte, zip []byte) *c16Mod {
+	d := c16Defs[idx]
+	mv := module.MustNewVersion(d.path, d.ver)
+	m := &c16Mod{Idx: idx, MV: mv, Files: fileMap, ModCue: fileMap["cue.mod/module.cue"], Zip: zip}
+	var files []c16File
+	for name, data := range m.Files {
+		m.Names = append(m.Names, name)
+		files = append(files, c16File{name, data})
+	}
+	sort.Strings(m.Names)
+	if m.Zip == nil {
 		sort.Slice(files, func(a, b int) bool { return files[a].name < files[b].name })
 		var buf bytes.Buffer
 		if err := modzip.Create(&buf, mv, files, c16FileIO{}); err != nil {
 			panic(fmt.Sprintf("C16: modzip.Create %v: %v", mv, err))
 		}
 		m.Zip = buf.Bytes()
-		m.ZipDigest = string(digest.FromBytes(m.Zip))
-		m.ModDigest = string(digest.FromBytes(m.ModCue))
-		var err error
-		if m.esc, err = module.EscapePath(mv.BasePath()); err != nil {
-			panic(err)
-		}
-		if m.escVer, err = module.EscapeVersion(mv.Version()); err != nil {
-			panic(err)
-		}
-		out = append(out, m)
 	}
-	return out
+	m.ZipDigest = string(digest.FromBytes(m.Zip))
+	m.ModDigest = string(digest.FromBytes(m.ModCue))
+	var err error
+	if m.esc, err = module.EscapePath(mv.BasePath()); err != nil {
+		panic(err)
+	}
+	if m.escVer, err = module.EscapeVersion(mv.Version()); err != nil {
+		panic(err)
+	}
+	return m
+}
+
+// c16EncodeMods / c16DecodeMods: the parent stores the generated module set in a file so
+// that the (many) children need not regenerate and re-deflate it; a child that cannot read
+// the file falls back to c16Modules(seed), which yields the same set.
+func c16EncodeMods(ms []*c16Mod) []byte {
+	var b []byte
+	put := func(p []byte) {
+		b = binary.LittleEndian.AppendUint32(b, uint32(len(p)))
+		b = append(b, p...)
+	}
+	for _, m := range ms {
+		b = binary.LittleEndian.AppendUint32(b, uint32(len(m.Names)))
+		for _, name := range m.Names {
+			put([]byte(name))
+			put(m.Files[name])
+		}
+		put(m.Zip)
+	}
+	return b
+}
+
+func c16DecodeMods(b []byte) (ms []*c16Mod, ok bool) {
+	defer func() {
+		if recover() != nil {
+			ms, ok = nil, false
+		}
+	}()
+	u32 := func() int {
+		v := binary.LittleEndian.Uint32(b)
+		b = b[4:]
+		return int(v)
+	}
+	get := func() []byte {
+		n := u32()
+		p := b[:n:n]
+		b = b[n:]
+		return p
+	}
+	for i := range c16Defs {
+		files := map[string][]byte{}
+		for n := u32(); n > 0; n-- {
+			name := string(get())
+			files[name] = get()
+		}
+		zip := get()
+		if len(files) != len(c16Defs[i].files)+1 || len(zip) == 0 {
+			return nil, false
+		}
+		ms = append(ms, c16FinishMod(i, files, zip))
+	}
+	return ms, len(b) == 0
 }
 
 // ---- on-disk snapshot (shared by parent and child) -------------------------------------
@@ -373,6 +437,8 @@ type c16Spec struct {
 	StartedFile string `json:",omitempty"`
 	GateFile    string `json:",omitempty"`
 	GateMs      int    `json:",omitempty"`
+	// ModsFile optionally holds the encoded module set of Seed (see c16EncodeMods).
+	ModsFile string `json:",omitempty"`
 }
 
 type c16Result struct {
@@ -498,7 +564,15 @@ func c16Child(c *Cfg) {
 	if err := json.Unmarshal(raw, &spec); err != nil {
 		fail("bad spec: " + err.Error())
 	}
-	mods := c16Modules(spec.Seed)
+	var mods []*c16Mod
+	if spec.ModsFile != "" {
+		if data, err := os.ReadFile(spec.ModsFile); err == nil {
+			mods, _ = c16DecodeMods(data)
+		}
+	}
+	if mods == nil {
+		mods = c16Modules(spec.Seed)
+	}
 	reg, err := ociclient.New(spec.Host, &ociclient.Options{
 		Insecure:  true,
 		Transport: &c16Transport{id: spec.WorkerID, base: http.DefaultTransport},
@@ -792,15 +866,27 @@ func (s *c16Server) forget(workers ...string) {
 
 // c16Env is one registry (one module-content seed) served on localhost.
 type c16Env struct {
-	seed uint64
-	mods []*c16Mod
-	srv  *c16Server
-	hs   *httptest.Server
-	host string
+	seed     uint64
+	modsFile string
+	mods     []*c16Mod
+	srv      *c16Server
+	hs       *httptest.Server
+	host     string
 }
 
-func c16NewEnv(seed uint64) (*c16Env, error) {
+func c16NewEnv(seed uint64, root string) (*c16Env, error) {
 	e := &c16Env{seed: seed, mods: c16Modules(seed)}
+	enc := c16EncodeMods(e.mods)
+	if back, ok := c16DecodeMods(enc); ok && len(back) == len(e.mods) {
+		same := true
+		for i, m := range e.mods {
+			same = same && bytes.Equal(back[i].Zip, m.Zip) && back[i].ZipDigest == m.ZipDigest && len(back[i].Files) == len(m.Files)
+		}
+		file := filepath.Join(root, fmt.Sprintf("mods-%d.bin", seed))
+		if same && os.WriteFile(file, enc, 0o666) == nil {
+			e.modsFile = file
+		}
+	}
 	reg := ocimem.New()
 	client := modregistry.NewClient(reg)
 	srv := &c16Server{
@@ -1097,7 +1183,7 @@ func (cs *c16Case) worker(tag string) string {
 }
 
 func (cs *c16Case) spec(worker string, jobs []c16Job, trace bool) c16Spec {
-	return c16Spec{Host: cs.env.host, CacheDir: cs.dir, Seed: cs.env.seed, WorkerID: worker, Jobs: jobs, Trace: trace}
+	return c16Spec{Host: cs.env.host, CacheDir: cs.dir, Seed: cs.env.seed, WorkerID: worker, Jobs: jobs, Trace: trace, ModsFile: cs.env.modsFile}
 }
 
 type c16Opts struct {
@@ -1556,10 +1642,18 @@ func c16ParentMain(c *Cfg) {
 		c.Direct(false, "harness-setup", "cannot create temp dir: "+err.Error(), nil)
 		return
 	}
-	defer func() {
-		modcache.RemoveAll(p.root)
+	defer modcache.RemoveAll(p.root)
+	// Do not leave cache directories behind when the check is interrupted.
+	sigc := make(chan os.Signal, 1)
+	signal.Notify(sigc, syscall.SIGINT, syscall.SIGTERM, syscall.SIGHUP, syscall.SIGPIPE)
+	defer signal.Stop(sigc)
+	go func() {
+		if _, ok := <-sigc; ok {
+			modcache.RemoveAll(p.root)
+			os.Exit(130)
+		}
 	}()
-	env, err := c16NewEnv(c.Seed)
+	env, err := c16NewEnv(c.Seed, p.root)
 	if err != nil {
 		c.Direct(false, "harness-setup", err.Error(), nil)
 		return
@@ -1597,7 +1691,7 @@ func c16ParentMain(c *Cfg) {
 	envs := []*c16Env{env}
 	if c.Thorough() {
 		for i := 1; i <= 2; i++ {
-			e2, err := c16NewEnv(c.Seed*1000003 + uint64(i))
+			e2, err := c16NewEnv(c.Seed*1000003+uint64(i), p.root)
 			if err != nil {
 				c.Direct(false, "harness-setup", err.Error(), nil)
 				continue
